@@ -179,6 +179,19 @@ theorem gaussSeidel_energy_le_zero {n : ℕ} {A : List (List α)} {b : List α} 
     (hs : SymPosDiag n A) (atol : α) (maxiter : ℕ) :
     (gaussSeidel A b atol maxiter).length = n ∧ energyL n A b (gaussSeidel A b atol maxiter) ≤ 0 := by
   unfold gaussSeidel
+  obtain ⟨hl, he⟩ := gsLoop_energy_le h hs atol maxiter true
+    (b.map (fun _ => (0:α))) (by simp [h.rhs])
+  refine ⟨hl, he.trans (le_of_eq ?_)⟩
+  unfold energyL
+  rw [vecFn_zeros]
+  exact energy_zero n _ _
+
+/-- the same for the pre-repair function (first test `2·atol > atol`) -/
+theorem gaussSeidelPrerepair_energy_le_zero {n : ℕ} {A : List (List α)} {b : List α} (h : Square n A b)
+    (hs : SymPosDiag n A) (atol : α) (maxiter : ℕ) :
+    (gaussSeidelPrerepair A b atol maxiter).length = n ∧
+    energyL n A b (gaussSeidelPrerepair A b atol maxiter) ≤ 0 := by
+  unfold gaussSeidelPrerepair
   obtain ⟨hl, he⟩ := gsLoop_energy_le h hs atol maxiter (decide (atol < atol + atol))
     (b.map (fun _ => (0:α))) (by simp [h.rhs])
   refine ⟨hl, he.trans (le_of_eq ?_)⟩
